@@ -1,5 +1,6 @@
 //! Conformance harness for the TLA+ specifications in /verif/specs.
 //! Sub-commands are selected by the first argument; see /verif/check.
+mod bench;
 mod seqds;
 mod simcore;
 
@@ -12,6 +13,7 @@ fn main() {
     match args[1].as_str() {
         "simcore" => simcore::main(&args[2..]),
         "seqds" => seqds::main(&args[2..]),
+        "bench" => bench::main(&args[2..]),
         other => {
             eprintln!("unknown engine {}", other);
             std::process::exit(2);
